@@ -12,7 +12,7 @@ pub fn registry(property: &str) -> Option<CheckSpec> {
         "C37" => Some(CheckSpec {
             property: "C37",
             level: "exploration",
-            parts: vec![Part::new(scn::Buyback, 60_000, 1_200_000)],
+            parts: vec![Part::new(scn::Buyback, 40_000, 600_000)],
             assumptions: vec![
                 "the bank balances a claim is measured against are the balances the GT bank records (reserved at confirmation); tokens in the bank vault above the record belong to the treasury (sync_gt_bank_v2)".into(),
                 "fees reach the receiver vault by a direct mint instead of claim_fees; GT is handed out by mint_gt_reward".into(),
